@@ -10,12 +10,14 @@
 from collections.abc import Iterator
 
 import elementpath.aliases as ta
+from elementpath.helpers import SPACES_OR_COMMENTS
 from elementpath.xpath_context import XPathContext
 from .base import XPathToken
 
 
 class XPathAxis(XPathToken):
-    pattern = r'\b[^\d\W][\w.\-\xb7\u0300-\u036F\u203F\u2040]*(?=\s*\:\:|\s*\(\:.*\:\)\s*\:\:)'
+    pattern = r'\b[^\d\W][\w.\-\xb7\u0300-\u036F\u203F\u2040]*' \
+              r'(?=' + SPACES_OR_COMMENTS + r'\:\:)'
     label = 'axis'
     reverse_axis: bool = False
 
